@@ -1,4 +1,6 @@
 """C01 — dead-code soundness: nothing that can execute is ever reported dead."""
+import os
+
 import lib
 import pygen
 import cfgcommon as cc
@@ -43,6 +45,50 @@ def main(tier):
         ck.broken_ties.append("model evaluation failed: " + str(e)[-1500:])
 
     nviol = 0
+    # ---- real-Python corpus: constructs outside the statement model (except*, generators, async, patterns, suppressing context
+    # managers, finally overriding control flow, decorators, class bodies ...) executed under sys.settrace ----
+    try:
+        import json as _json, subprocess as _sp, sys as _sys, shutil as _sh
+        cdir = lib.fresh_dir("c01_corpus")
+        here = os.path.dirname(os.path.abspath(__file__))
+        for fn in sorted(os.listdir(os.path.join(here, "corpus"))):
+            if fn.startswith("c01_") and fn.endswith(".py"):
+                _sh.copy(os.path.join(here, "corpus", fn), os.path.join(cdir, fn))
+        crc, cdata, cerr = cc.run_pyscn(cdir, select="deadcode")
+        dead_by_file = {}
+        for f in ((cdata or {}).get("dead_code") or {}).get("files") or []:
+            for fnrow in f.get("functions") or []:
+                for x in fnrow.get("findings") or []:
+                    dead_by_file.setdefault(os.path.basename(f["file_path"]), []).append(
+                        (x["location"]["start_line"], x["location"]["end_line"], x["severity"], x["reason"], fnrow["name"]))
+        if cdata is None:
+            ck.broken_ties.append("corpus: pyscn produced no report (rc=%s): %s" % (crc, cerr[-300:]))
+        stats["corpus_files"] = 0
+        stats["corpus_executed_lines"] = 0
+        stats["corpus_dead_ranges"] = sum(len(v) for v in dead_by_file.values())
+        if cdata is not None and not stats["corpus_dead_ranges"]:
+            ck.broken_ties.append("corpus: pyscn reports no dead code at all in the corpus (really_dead has two dead statements): the stage is vacuous")
+        for fn in sorted(os.listdir(cdir)):
+            if not fn.endswith(".py"):
+                continue
+            p = _sp.run([_sys.executable, os.path.join(here, "pytrace.py"), os.path.join(cdir, fn)], capture_output=True, text=True, timeout=300)
+            if p.returncode != 0:
+                ck.broken_ties.append("corpus: tracing %s failed: %s" % (fn, p.stderr[-400:]))
+                continue
+            tr = _json.loads(p.stdout)
+            stats["corpus_files"] += 1
+            stats["corpus_executed_lines"] += len(tr["executed"])
+            for k in tr["executed"]:
+                hit = [r for r in dead_by_file.get(fn, []) if r[0] <= k <= r[1]]
+                if hit and nviol < 3:
+                    nviol += 1
+                    src = open(os.path.join(cdir, fn)).read().splitlines()
+                    ck.violation("line %d of corpus/%s (%s) executes under CPython in the call %s but lies in a range pyscn reports as dead code: %s"
+                                 % (k, fn, src[k - 1].strip()[:60], tr["first_call"][str(k)], hit),
+                                 {"kind": "live-flagged-dead", "file": "harness/corpus/" + fn, "executed_line": k, "call": tr["first_call"][str(k)],
+                                  "dead_ranges": hit, "source_excerpt": src[max(0, k - 8):k + 3], "found_by": "real-Python corpus under sys.settrace"})
+    except Exception as e:
+        ck.broken_ties.append("corpus stage failed: " + str(e)[-600:])
     sem_mism = tie_mism = 0
     suspects = []   # statements pyscn calls dead and the model calls live: candidates for a CPython witness
     for m in mods:
